@@ -193,8 +193,33 @@ protected:
   template <class Str>
   void DoWriteString(const Str& val) {
     MakeScalarIfUnset();
-    wrt_.write("\"{}\"", val);
+    wrt_.write("\"{}\"", EscapeString(val));
     ++n_written_;
+  }
+
+  /// Escape characters not allowed in a JSON string
+  /// (item names can contain quotes and backslashes.)
+  static std::string EscapeString(const std::string& s) {
+    std::string result;
+    result.reserve(s.size());
+    for (unsigned char c: s) {
+      switch (c) {
+      case '"':  result += "\\\""; break;
+      case '\\': result += "\\\\"; break;
+      case '\n': result += "\\n"; break;
+      case '\r': result += "\\r"; break;
+      case '\t': result += "\\t"; break;
+      default:
+        if (c < 0x20) {
+          const char hex[] = "0123456789abcdef";
+          result += "\\u00";
+          result += hex[c >> 4];
+          result += hex[c & 15];
+        } else
+          result += (char)c;
+      }
+    }
+    return result;
   }
 
 private:
